@@ -36,6 +36,8 @@ func runOracle(oracle string, c *Case, lean *LeanDriver) Verdict {
 		return seqCase(c, lean)
 	case "concurrent":
 		return concurrentCase(c, lean)
+	case "kernel":
+		return kernelCase(c, lean)
 	}
 	return Verdict{ID: c.ID, Query: c.Query, Oracle: oracle, Skipped: "unknown oracle"}
 }
